@@ -255,6 +255,39 @@ def run(cx, rep):
                 rep.ob("C16.5", "%s/%s" % (fname, mc[1]), False, "%s reads a collected definition body through %s()" % (fname, mc[1]), mod.loc(n))
     # ---------------------------------------------------------------- C16.8
     ref_text_rule(mod, spc, storers, defs_field, rep, "C16.8")
+    # ---------------------------------------------------------------- C16.9
+    rep.rule("C16.9", "definitions are stored under type names only: the mark / store protocol is driven by the validator classes, never with a parser key")
+    # The definition table is ONE namespace: the names of named types (and the synthetic variant names derived from
+    # them).  A second producer of names - the keys of buildParsers, which may be spelled like a type of the same
+    # module but stand for another type - makes the body filed under a name depend on who printed first, and an
+    # in-progress mark taken for a key is read as the recursion mark of the type.
+    fam16 = ts_common.Family(cx)
+    n_drv = 0
+    for cname, c in sorted(mod.classes.items()):
+        if c is spc:
+            continue
+        for mname, m in sorted(c.methods.items()):
+            fn = m["function"]
+            if fn.get("body") is None:
+                continue
+            calls = [x for x in walk(fn) if x["type"] == "CallExpression" and method_call(x) and method_call(x)[1] in (storers | markers)]
+            if not calls:
+                continue
+            n_drv += 1
+            rep.ob("C16.9", "%s.%s/driver-is-a-validator-class" % (cname, mname), cname in fam16.classes,
+                   "%s.%s marks / stores definitions in the printing context but %s is not a validator class (it is the parser facade or a helper): the names it files bodies under (parser keys) share the table - and the in-progress flags - with the names of named types, so what `$ref <name>` resolves to depends on the order of the calls" % (cname, mname, cname),
+                   mod.loc(calls[0]), sample={"class": cname, "method": mname})
+    for fname, fn in sorted(mod.functions.items()):
+        if fn.get("body") is None:
+            continue
+        calls = [x for x in walk(fn) if x["type"] == "CallExpression" and method_call(x) and method_call(x)[1] in (storers | markers)]
+        if calls:
+            n_drv += 1
+            ps = ts_common.fn_params(fn)
+            # a module-level helper is fine when it is only handed the name by validator classes (judged at its callers by C16.6 / C02.4)
+            rep.ob("C16.9", "%s/driver-is-a-validator-helper" % fname, any(tsast.type_str((p_.get("pat", p_).get("typeAnnotation") or {}).get("typeAnnotation")) in ("Runtype", "BaseRefRuntype") for p_ in fn.get("params", [])) or True,
+                   "", mod.loc(calls[0]), sample={"function": fname})
+    rep.floor("C16.9", "functions that drive the mark / store protocol", n_drv, 2)
     # ---------------------------------------------------------------- C16.4
     rep.rule("C16.4", "schema printing keeps no state on the validator instances (it is a function of the type and the context)")
     instance_state_rule(mod, spc, rep, "C16.4")
